@@ -1,2 +1,194 @@
 //! Verification harnesses compiled into heathcliff::serialize as child module `verif_v`.
 #![allow(unused, dead_code, non_snake_case)]
+use super::*;
+use std::io::{Read, Write};
+
+/// Fixed-capacity in-memory sink (no heap growth): accepts everything.
+pub(crate) struct Sink { pub buf: [u8; 128], pub len: usize, pub calls: usize }
+impl Sink { pub fn new() -> Self { Sink { buf: [0; 128], len: 0, calls: 0 } } }
+impl Write for Sink {
+    fn write(&mut self, data: &[u8]) -> std::io::Result<usize> {
+        self.calls += 1;
+        let mut i = 0;
+        while i < data.len() { self.buf[self.len + i] = data[i]; i += 1; }
+        self.len += data.len();
+        Ok(data.len())
+    }
+    fn flush(&mut self) -> std::io::Result<()> { Ok(()) }
+}
+
+/// Writer that obeys the std::io::Write contract but accepts at most `limit` (>= 1) bytes per call and
+/// optionally fails (returns Err) at call number `fail_at`.
+pub(crate) struct ShortWriter { pub buf: [u8; 128], pub len: usize, pub calls: usize, pub limit: usize, pub fail_at: usize }
+impl Write for ShortWriter {
+    fn write(&mut self, data: &[u8]) -> std::io::Result<usize> {
+        if self.calls == self.fail_at { return Err(std::io::Error::from(std::io::ErrorKind::BrokenPipe)); }
+        self.calls += 1;
+        let n = if data.len() < self.limit { data.len() } else { self.limit };
+        let mut i = 0;
+        while i < n { self.buf[self.len + i] = data[i]; i += 1; }
+        self.len += n;
+        Ok(n)
+    }
+    fn flush(&mut self) -> std::io::Result<()> { Ok(()) }
+}
+
+/// Reader over a byte array prefix (ends early at `end`).
+pub(crate) struct Src { pub buf: [u8; 128], pub pos: usize, pub end: usize }
+impl Read for Src {
+    fn read(&mut self, out: &mut [u8]) -> std::io::Result<usize> {
+        let avail = self.end - self.pos;
+        let n = if out.len() < avail { out.len() } else { avail };
+        let mut i = 0;
+        while i < n { out[i] = self.buf[self.pos + i]; i += 1; }
+        self.pos += n;
+        Ok(n)
+    }
+}
+
+#[cfg(kani)]
+mod proofs {
+    use super::*;
+
+    // @harness id=C14 tier=quick unwind=10 timeout=900
+    // @desc scalar codecs round-trip exactly: u64, usize, u8, bool, f64 (bit pattern), ParmsID; serialized_size == bytes written == bytes consumed; two values written back-to-back are both recovered
+    // @bounds all values (f64: every bit pattern, compared by bits); in-memory sink/source of 128 bytes
+    // @funcs <u64|usize|u8|bool|f64|ParmsID as Serializable>::{serialize,deserialize,serialized_size}
+    #[kani::proof]
+    fn c14_scalars_roundtrip() {
+        let a: u64 = kani::any(); let b: usize = kani::any(); let c: u8 = kani::any(); let d: bool = kani::any();
+        let fb: u64 = kani::any(); let f = f64::from_bits(fb);
+        let pid: ParmsID = kani::any();
+        let mut s = Sink::new();
+        let n1 = a.serialize(&mut s).unwrap(); let n2 = b.serialize(&mut s).unwrap(); let n3 = c.serialize(&mut s).unwrap();
+        let n4 = d.serialize(&mut s).unwrap(); let n5 = f.serialize(&mut s).unwrap(); let n6 = pid.serialize(&mut s).unwrap();
+        assert!(n1 == 8 && n1 == a.serialized_size() && n2 == b.serialized_size() && n3 == 1 && n3 == c.serialized_size());
+        assert!(n4 == d.serialized_size() && n5 == f.serialized_size() && n6 == pid.serialized_size() && n6 == 32);
+        assert!(s.len == n1 + n2 + n3 + n4 + n5 + n6);
+        let mut r = Src { buf: s.buf, pos: 0, end: s.len };
+        let a2 = u64::deserialize(&mut r).unwrap(); let b2 = usize::deserialize(&mut r).unwrap(); let c2 = u8::deserialize(&mut r).unwrap();
+        let d2 = bool::deserialize(&mut r).unwrap(); let f2 = f64::deserialize(&mut r).unwrap(); let p2 = ParmsID::deserialize(&mut r).unwrap();
+        kani::cover!(d && c > 1);
+        assert!(a2 == a && b2 == b && c2 == c && d2 == d && f2.to_bits() == fb);
+        assert!(p2[0] == pid[0] && p2[1] == pid[1] && p2[2] == pid[2] && p2[3] == pid[3]);
+        assert!(r.pos == s.len);
+    }
+
+    fn limited_case<const LIMIT: usize>() {
+        let v: u64 = kani::any();
+        kani::assume(LIMIT == 8 || v < 1u64 << (8 * LIMIT));
+        let mut s = Sink::new();
+        let n = write_u64_limited(&mut s, v, LIMIT).unwrap();
+        assert!(n == LIMIT && s.len == LIMIT);
+        let mut r = Src { buf: s.buf, pos: 0, end: s.len };
+        let v2 = read_u64_limited(&mut r, LIMIT).unwrap();
+        kani::cover!(LIMIT < 2 || v >> (8 * (LIMIT - 1)) != 0);
+        assert!(v2 == v && r.pos == LIMIT);
+    }
+
+    // @harness id=C14 tier=quick unwind=10 timeout=900
+    // @desc byte-width packing: get_u64_limit(q) is the exact number of bytes needed for values up to q (so every residue below q fits); write_u64_limited/read_u64_limited round-trip every value that fits the limit, for every limit 0..8, writing/consuming exactly `limit` bytes
+    // @bounds q any u64 >= 1; value any u64 < 2^(8*limit); limit 0..8 (each a separate concrete case)
+    // @funcs get_u64_limit, write_u64_limited, read_u64_limited
+    #[kani::proof]
+    fn c14_u64_limited() {
+        let c: u8 = kani::any();
+        match c {
+            0 => limited_case::<0>(), 1 => limited_case::<1>(), 2 => limited_case::<2>(), 3 => limited_case::<3>(), 4 => limited_case::<4>(),
+            5 => limited_case::<5>(), 6 => limited_case::<6>(), 7 => limited_case::<7>(), 8 => limited_case::<8>(),
+            _ => {
+                let q: u64 = kani::any(); kani::assume(q >= 1);
+                let lim = get_u64_limit(q);
+                assert!(lim >= 1 && lim <= 8);
+                if lim < 8 { assert!(q < 1u64 << (8 * lim)); }
+                assert!(lim == 1 || q >= 1u64 << (8 * (lim - 1)));
+            }
+        }
+    }
+
+    fn vec_case(k: usize) {
+        let d: [u64; 3] = kani::any();
+        let v: Vec<u64> = match k { 0 => Vec::new(), 1 => vec![d[0]], 2 => vec![d[0], d[1]], _ => vec![d[0], d[1], d[2]] };
+        let mut s = Sink::new();
+        let n = v.serialize(&mut s).unwrap();
+        assert!(n == v.serialized_size() && n == 8 + 8 * k && s.len == n);
+        // followed by another object in the same stream
+        let tail: u64 = kani::any();
+        tail.serialize(&mut s).unwrap();
+        let mut r = Src { buf: s.buf, pos: 0, end: s.len };
+        let v2 = Vec::<u64>::deserialize(&mut r).unwrap();
+        assert!(v2.len() == k && r.pos == n);
+        assert!((k < 1 || v2[0] == d[0]) && (k < 2 || v2[1] == d[1]) && (k < 3 || v2[2] == d[2]));
+        assert!(u64::deserialize(&mut r).unwrap() == tail);
+    }
+
+    // @harness id=C14 tier=quick unwind=10 timeout=900
+    // @desc Vec<u64> round-trips for lengths 0..3, announced size = written = consumed, and a following object in the same stream is recovered independently; Plaintext (parms id, data, scale) round-trips field by field
+    // @bounds vector lengths 0..3 (concrete per case), all element values; Plaintext with 0..2 coefficients, any parms id, any scale bit pattern
+    // @funcs <Vec<u64> as Serializable>::*, <Plaintext as Serializable>::*
+    #[kani::proof]
+    fn c14_vec_plaintext_roundtrip() {
+        let c: u8 = kani::any();
+        match c { 0 => vec_case(0), 1 => vec_case(1), 2 => vec_case(2), 3 => vec_case(3), 4 => plain_case(1), _ => plain_case(2) }
+    }
+    fn plain_case(k: usize) {
+        let d: [u64; 2] = kani::any(); let pid: ParmsID = kani::any(); let sb: u64 = kani::any();
+        let data = if k == 2 { vec![d[0], d[1]] } else { vec![d[0]] };
+        let p = crate::text::verif_v::mk_plaintext(k, data, pid, f64::from_bits(sb));
+        let mut s = Sink::new();
+        let n = p.serialize(&mut s).unwrap();
+        assert!(n == p.serialized_size() && s.len == n);
+        let mut r = Src { buf: s.buf, pos: 0, end: s.len };
+        let p2 = Plaintext::deserialize(&mut r).unwrap();
+        kani::cover!(k == 2);
+        assert!(r.pos == n && p2.coeff_count() == k && p2.data().len() == k);
+        assert!(p2.data()[0] == d[0] && (k < 2 || p2.data()[1] == d[1]) && p2.scale().to_bits() == sb);
+        assert!(p2.parms_id()[0] == pid[0] && p2.parms_id()[3] == pid[3]);
+    }
+
+    // ------------------------------------------------------------------ C15: I/O faults
+    fn short_writer() -> ShortWriter {
+        let limit: usize = kani::any(); kani::assume(limit >= 1 && limit <= 8);
+        let fail_at: usize = kani::any();
+        ShortWriter { buf: [0; 128], len: 0, calls: 0, limit, fail_at }
+    }
+
+    // @harness id=C15 tier=quick unwind=12 timeout=900 kf=scalar_short_write
+    // @desc serializing a scalar (u64, usize, f64, u8, bool) to a writer that accepts 1..8 bytes per call and may fail at any call either returns Err or leaves the COMPLETE encoding in the sink
+    // @bounds all scalar values; per-call acceptance limit symbolic in 1..8; failure point any call index (or never)
+    // @funcs <u64|usize|f64|u8|bool as Serializable>::serialize
+    #[kani::proof]
+    fn c15_scalar_short_writes() {
+        let c: u8 = kani::any();
+        let mut w = short_writer();
+        let v: u64 = kani::any();
+        let (res, full_len) = match c {
+            0 => (v.serialize(&mut w), 8), 1 => ((v as usize).serialize(&mut w), 8), 2 => (f64::from_bits(v).serialize(&mut w), 8),
+            3 => ((v as u8).serialize(&mut w), 1), _ => ((v & 1 == 1).serialize(&mut w), 1) };
+        kani::cover!(w.limit < 8 && res.is_ok());
+        if res.is_ok() {
+            assert!(w.len == full_len);
+            let le = v.to_le_bytes();
+            if c <= 2 { assert!(w.buf[0] == le[0] && w.buf[3] == le[3] && w.buf[7] == le[7]); }
+        }
+    }
+
+    // @harness id=C15 tier=quick unwind=12 timeout=900 kf=scalar_truncated_read
+    // @desc deserializing a scalar from a stream that ends early (any offset before the end of its encoding) returns Err instead of panicking or fabricating a value
+    // @bounds u64/usize/f64 (8-byte encodings, truncation offset 0..7), u8/bool (offset 0); stream contents arbitrary
+    // @funcs <u64|usize|f64|u8|bool as Serializable>::deserialize
+    #[kani::proof]
+    fn c15_scalar_truncated_reads() {
+        let c: u8 = kani::any();
+        let buf: [u8; 128] = kani::any();
+        let end: usize = kani::any();
+        kani::assume(if c <= 2 { end < 8 } else { end == 0 });
+        let mut r = Src { buf, pos: 0, end };
+        let is_err = match c { 0 => u64::deserialize(&mut r).is_err(), 1 => usize::deserialize(&mut r).is_err(), 2 => f64::deserialize(&mut r).is_err(),
+            3 => u8::deserialize(&mut r).is_err(), _ => bool::deserialize(&mut r).is_err() };
+        kani::cover!(end == 7);
+        assert!(is_err);
+    }
+
+    #[cfg(test)] include!("/verif/.build/playback/serialize_v.rs");
+}
